@@ -28,6 +28,7 @@ def run(ctx):
     # search oracle directly on the implementation's heap traces: every popped
     # element is minimal among the array before the pop, the multiset is
     # conserved and indices are accurate (independent of the model).
+    ctx.oracle_stream('heap-bursts', d + '/burst.verdicts', d + '/burst.cases')
     n_bad = heap_oracle(ctx, '%s/heap.cases' % d, '%s/heap.impl' % d)
     ctx.cov['streams']['heap_oracle_violations'] = n_bad
     ctx.cov['distinct_nontrivial'] = sum(v['nontrivial'] for v in ctx.cov['streams'].values() if isinstance(v, dict))
